@@ -166,6 +166,7 @@ def check(repo, tier):
     run.rule('D2', 'elementary terms: each single-cell reaction contributes rate (|p><r| - |r><r|), each two-cell reaction rate (|p1><r1| (x) |p2><r2| - |r1><r1| (x) |r2><r2|) '
              '(zero column sums, non-negative off-diagonals); the decomposed super-core is that sum')
     run.rule('D3', 'homogeneous wrapper passes order single-cell lists and order (cyclic) / order-1 (open) two-cell lists, with the given state space and threshold')
+    run.rule('D5', 'slim_mme / slim_mme_hom / ulam_2d / ulam_3d do not modify their arguments (state space, reaction tables, transition data) in place')
     run.rule('D4', 'Ulam: the boundary cores get 1 stored at the (source, target) positions of the unique index pairs, the remaining core accumulates counts with +=, addressed by '
              'the inverse unique indices; source on the row axis before the single transpose; result scaled by 1/simulations')
     run.trusted = ['NumPy transfer functions', 'elementary-operator algebra ttsa/opalg.py', 'thin SVD u diag(s) v reproduces the decomposed matrix (threshold 0)']
@@ -185,7 +186,11 @@ def check(repo, tier):
     run.oblige('D1', ('no module-level state in slim / ulam',), not ff)
     entry = f'{SLIM}.slim_mme'
     variants = ('alternating', 'no single-cell reactions in cell 1', 'no reaction on bond 0', 'no reaction on the last bond', 'full lists everywhere') if tier == 'thorough' else ('alternating',)
+    variants = tuple(variants) + ('threshold 1e-10',)
     for d, cyclic, variant in itertools.product(orders, (False, True), variants):
+        thr_ = 1e-10 if variant.startswith('threshold') else 0
+        if thr_ and (cyclic or d > 2):
+            continue
         scen = f'slim_mme(cells={d}, {"cyclic" if cyclic else "open"}' + (f', {variant}' if variant != 'alternating' else '') + ')'
 
         def body(sc):
@@ -203,10 +208,13 @@ def check(repo, tier):
                 tcr[0] = []
             if variant == 'no reaction on the last bond':
                 tcr[-1] = []
-            sc.inputs = (ss, scr, tcr)
-            return sc.call(entry, ss, scr, tcr, threshold=0)
+            import copy as _copy
+            sc.inputs = (list(ss), _copy.deepcopy(scr), _copy.deepcopy(tcr))          # what the caller passed, for the comparison below
+            sc.passed = (ss, scr, tcr)
+            return sc.call(entry, ss, scr, tcr, threshold=thr_)
         for ch, sc, res, exc in l2.explore(repo, body, typed=False):
             l2rules.lost_update_obligations(run, 'C12', 'D2', repo, sc, scen, {SLIM})
+            l2rules.relative_cut_obligations(run, 'C12', 'D1', repo, sc, scen, {SLIM}, expected=[thr_] if thr_ else None)
             if exc is not None:
                 run.oblige('D1', (entry, scen), False)
                 l2rules.raised_finding(run, 'C12', 'D1', repo, entry, scen, exc)
@@ -214,6 +222,12 @@ def check(repo, tier):
             if not l2rules.invariant_obligation(run, 'C12', 'D1', repo, sc, res, entry, scen, 'generator', chain=False):
                 continue
             ss, scr, tcr = sc.inputs
+            changed = [nm for nm, a_, b_ in zip(('state_space', 'single_cell_reactions', 'two_cell_reactions'), sc.passed, sc.inputs)
+                       if len(a_) != len(b_) or any((len(x_) != len(y_)) if isinstance(x_, list) and isinstance(y_, list) else False for x_, y_ in zip(a_, b_))]
+            run.oblige('D5', (entry, scen, 'arguments as passed'), not changed)
+            if changed:
+                fn_ = repo.fn(entry)
+                run.add(Finding('C12', 'D5', fn_.where, 'arguments modified', f'{scen}: after the call the argument(s) {changed} no longer have the entries the caller passed', fn_.file, fn_.node.lineno))
             # bounds / disjointness
             for e in sc.events('store-bounds-unproved'):
                 where, cons, f, ln = l2rules.ev_where(repo, e, {SLIM})
@@ -306,6 +320,8 @@ def check(repo, tier):
                           f'(expected {d} and {d if cyclic else d - 1}), threshold {a[3] if a else "?"}'))
     ulam_rule(run, repo, F)
     run.floor('obligations decided', run.obligations, 60)
+    # the reaction tables, state-space list and transition data are not modified in place (a second model built from the same table must be the same model)
+    l2rules.plain_args_frame(run, 'C12', 'D5', repo, {f'{SLIM}.slim_mme', f'{SLIM}.slim_mme_hom', f'{ULAM}.ulam_2d', f'{ULAM}.ulam_3d'})
     return run
 
 
